@@ -1,0 +1,11 @@
+//go:build verif
+
+package isobmff
+
+// Verification hooks (build tag verif): exported views of unexported identifiers.
+
+// VerifBoxTypeString is boxType(v).String().
+func VerifBoxTypeString(v uint8) string { return boxType(v).String() }
+
+// VerifHdlrTypeString is hdlrType(v).String().
+func VerifHdlrTypeString(v uint8) string { return hdlrType(v).String() }
